@@ -112,7 +112,13 @@ pub fn judge(case: &Case, acc: &mut Acc) {
     let mut fifos: Vec<(usize, String, Vec<u8>)> = vec![];
     for (i, size) in case.sizes.iter().enumerate() {
         let failing = case.fail_at == Some(i);
-        let name = format!("f{i}.json");
+        // one name in six is not valid UTF-8 (see procmon::os_name): such a file is an input like any other
+        let name = if rng.chance(1, 6) {
+            acc.count("input_names_not_utf8");
+            format!("r\u{fffd}sum\u{fffd}{i}.json")
+        } else {
+            format!("f{i}.json")
+        };
         // TOML output takes a single document: good inputs for it are single tables
         let single = case.to == Fmt::Toml;
         if failing {
@@ -122,7 +128,7 @@ pub fn judge(case: &Case, acc: &mut Acc) {
                     argv.push(name);
                 }
                 "directory" => {
-                    let _ = std::fs::create_dir_all(sc.path().join(&name));
+                    let _ = std::fs::create_dir_all(sc.path().join(procmon::os_name(&name)));
                     files.insert(name.clone(), PathKind::Directory);
                     argv.push(name);
                 }
@@ -283,9 +289,9 @@ pub fn run(ctx: &Ctx) -> i32 {
         acc.sample_every(149, || case.json());
         judge(&case, acc);
     });
-    let rule = format!("{} invocations: 1-6 inputs with sizes from 5 B to 4 MiB (mostly below the 8 KiB stdout buffer, some straddling it, some far above), the failing input at every position in turn (or none), failure kinds {:?}, all four targets, stdout a pipe or a file, some inputs through standard input, some zero-length or blank files; every second small input is a generated document in a random source format and spelling (named by its extension) whose last value is an empty string, an empty collection or another value that serializers finish with an unusual final write, delivered as a regular file, on standard input (format detected) or through a FIFO (named with or without its extension); expectation computed with the library; distinct non-trivial = distinct invocations", n, FAILURES);
+    let rule = format!("{} invocations: 1-6 inputs with sizes from 5 B to 4 MiB (mostly below the 8 KiB stdout buffer, some straddling it, some far above), the failing input at every position in turn (or none), failure kinds {:?}, all four targets, stdout a pipe or a file, some inputs through standard input, some zero-length or blank files, one name in six not valid UTF-8; every second small input is a generated document in a random source format and spelling (named by its extension) whose last value is an empty string, an empty collection or another value that serializers finish with an unusual final write, delivered as a regular file, on standard input (format detected) or through a FIFO (named with or without its extension); expectation computed with the library; distinct non-trivial = distinct invocations", n, FAILURES);
     ev::finish(
-        Finish { ctx, level: "fault_enumeration", rule, assumptions: vec!["how much of the FAILING input's own partial output reaches stdout is left open (anything between nothing and all of it)".into()], extra: serde_json::Map::new(), exhaustive: false, min_distinct: 300, must_reach: vec![("failures_with_earlier_output_below_buffer_size".into(), 100), ("expected_exit_0".into(), 50), ("failing_position_0".into(), 20), ("failing_position_3".into(), 20), ("generated_input_msgpack".into(), 30), ("generated_input_yaml".into(), 30), ("generated_input_json".into(), 30), ("generated_input_on_stdin".into(), 20), ("zero_length_or_blank_input".into(), 50), ("generated_input_through_fifo".into(), 30)] },
+        Finish { ctx, level: "fault_enumeration", rule, assumptions: vec!["how much of the FAILING input's own partial output reaches stdout is left open (anything between nothing and all of it)".into()], extra: serde_json::Map::new(), exhaustive: false, min_distinct: 300, must_reach: vec![("failures_with_earlier_output_below_buffer_size".into(), 100), ("expected_exit_0".into(), 50), ("failing_position_0".into(), 20), ("failing_position_3".into(), 20), ("generated_input_msgpack".into(), 30), ("generated_input_yaml".into(), 30), ("generated_input_json".into(), 30), ("generated_input_on_stdin".into(), 20), ("zero_length_or_blank_input".into(), 50), ("input_names_not_utf8".into(), 100), ("generated_input_through_fifo".into(), 30)] },
         acc,
     )
 }
